@@ -43,6 +43,8 @@ fn main() {
     let mut block_size = 4096usize;
     let mut dbops: Vec<api::DbOp> = vec![];
     let mut moves = "nnpnppnnnpnpp".to_string();
+    let mut reuse = false;
+    let mut only_fault: Option<(usize, bool)> = None;
     let mut raw_bytes: Vec<Vec<u8>> = vec![];
     let mut blooms: Vec<(usize, Vec<Vec<u8>>)> = vec![];
     let mut encodes: Vec<(u64, Vec<(Vec<u8>, Option<Vec<u8>>)>)> = vec![];
@@ -80,6 +82,8 @@ fn main() {
             "bytes" => raw_bytes.push(unhex(t[1])),
             "encode" => encodes.push((t[1].parse().unwrap(), t[2..].chunks(2).map(|c| (unhex(c[0]), if c[1] == "!" { None } else { Some(unhex(c[1])) })).collect())),
             "moves" => moves = t[1].to_string(),
+            "reuse" => reuse = t[1] == "1",
+            "fault" => only_fault = Some((t[1].parse().unwrap(), t[2] == "sticky")),
             "file" => files.push((
                 api::ikey(&unhex(t[1]), t[2].parse().unwrap(), 1),
                 api::ikey(&unhex(t[3]), t[4].parse().unwrap(), 1),
@@ -230,6 +234,64 @@ fn main() {
             }
             if bad.is_empty() { println!("REPLAY holds oracle=db_views views={}", views.len()); }
             else { println!("REPLAY violated oracle=db_views {}", bad.join("; ")); }
+        }
+        // C08 (bounded stand-in): the history is run once per counted file-system call with that call
+        // failing (once / from then on); acknowledged writes must stay visible while the fault is
+        // active (or reads fail) and after a clean reopen; failed writes are all-or-nothing.
+        "faults" => {
+            let mut allkeys: std::collections::BTreeSet<Vec<u8>> = Default::default();
+            for op in &dbops {
+                match op {
+                    api::DbOp::Put(k, _) | api::DbOp::Delete(k) => { allkeys.insert(k.clone()); }
+                    api::DbOp::Batch(b) => { for (k, _) in b { allkeys.insert(k.clone()); } }
+                    _ => {}
+                }
+            }
+            let keys: Vec<Vec<u8>> = allkeys.into_iter().collect();
+            let dbops = std::sync::Arc::new(dbops);
+            let keys = std::sync::Arc::new(keys);
+            // (outcome, panicked, hung)
+            let run_one = |fail_at: Option<usize>, sticky: bool| -> Result<api::faults::Outcome, String> {
+                let (tx, rx) = std::sync::mpsc::channel();
+                let o = std::sync::Arc::clone(&dbops);
+                let k = std::sync::Arc::clone(&keys);
+                std::thread::spawn(move || {
+                    let r = std::panic::catch_unwind(std::panic::AssertUnwindSafe(|| api::faults::run(&o, &k, fail_at, sticky, reuse)));
+                    let _ = tx.send(r.map_err(|e| format!("panic: {}", e.downcast_ref::<String>().cloned().or(e.downcast_ref::<&str>().map(|s| s.to_string())).unwrap_or_default())));
+                });
+                match rx.recv_timeout(std::time::Duration::from_secs(20)) {
+                    Ok(r) => r,
+                    Err(_) => Err("hang (no answer within 20 s)".to_string()),
+                }
+            };
+            let clean = run_one(None, false);
+            let n = match &clean {
+                Ok(o) if o.bad.is_empty() => o.calls,
+                Ok(o) => { println!("REPLAY violated oracle=faults fault=none {}", o.bad.join("; ")); return; }
+                Err(e) => { println!("REPLAY inconclusive oracle=faults fault=none {}", e); return; }
+            };
+            let positions: Vec<(usize, bool)> = match only_fault {
+                Some(p) => vec![p],
+                None => (0..n).flat_map(|k| [(k, false), (k, true)]).collect(),
+            };
+            let mut bad = vec![];
+            let mut not_judged = 0usize;
+            let mut judged = 0usize;
+            for (k, sticky) in positions {
+                match run_one(Some(k), sticky) {
+                    Ok(o) => {
+                        judged += 1;
+                        if !o.bad.is_empty() {
+                            let msg = format!("fault={} {} hit=[{}] :: {} (+{} more) :: trace: {}", k, if sticky { "sticky" } else { "transient" }, o.fired.join(", "), o.bad[0], o.bad.len() - 1, o.trace.join(" | "));
+                            if std::env::var("VERIF_FAULTS_VERBOSE").is_ok() { eprintln!("faults: {}", msg); }
+                            if bad.len() < 2 { bad.push(msg); }
+                        }
+                    }
+                    Err(e) => { not_judged += 1; if std::env::var("VERIF_FAULTS_VERBOSE").is_ok() { eprintln!("faults: k={} sticky={} not judged: {}", k, sticky, e); } }
+                }
+            }
+            if bad.is_empty() { println!("REPLAY holds oracle=faults fs_calls={} fault_runs={} not_judged={}", n, judged, not_judged); }
+            else { println!("REPLAY violated oracle=faults {}", bad.join(" ;; ")); }
         }
         // public BloomFilterPolicy: every key a filter was created from may match (C14, first sentence)
         "bloom" => {
